@@ -185,13 +185,15 @@ func runOp(g *gates, st *stack, s schedStep) {
 		a.st = errSt(st.cache.Remove(s.K))
 	case "pput":
 		tx := &fakeTx{}
-		err := st.ps.PutPart(ctx, tx, *partIds[s.K], plainReader{bytes.NewReader(encValue(s.K, s.V, 2))})
+		err := st.ps.PutPart(ctx, tx, *partIds[s.K], plainReader{bytes.NewReader(partValue(s.K, s.V))})
 		if err != nil {
 			a.st = errSt(err)
 			return
 		}
 		g.park("commit", s.K)
 		a.st = errSt(tx.Commit(ctx))
+	case "pputi": // no transaction: the cache part store updates the cache inline
+		a.st = errSt(st.ps.PutPart(ctx, nil, *partIds[s.K], plainReader{bytes.NewReader(partValue(s.K, s.V))}))
 	case "pdel":
 		tx := &fakeTx{}
 		err := st.ps.DeletePart(ctx, tx, *partIds[s.K])
